@@ -69,6 +69,10 @@ let builder_case ?(timed=false) id ops_s tf_s =
     obs id "TR" (str_ints ro); obs id "TM" (str_ints mo);
     obs id "FO" (str_ints mo); obs id "FE" (str_ints mo);
     obs id "TN" (str_ints (iter_insertion_order gg));
+    obs id "TNM" (str_ints (iter_insertion_order gg));
+    obs id "TNI" (let l = iter_insertion_order gg in
+                  if l = [] then "-" else
+                  String.concat " " (List.mapi (fun i x -> Printf.sprintf "%d:%d" i (int_of_nat x)) l));
     let ks = ints_of ',' tf_s in
     obs id "TF" (try_line mo ks); obs id "TE" (try_line mo ks);
     obs id "P" (Printf.sprintf "%d %d" (int_of_nat pops) (int_of_nat queries));
